@@ -421,5 +421,10 @@ def run(chk):
     r10_2(chk)
     r10_3(chk)
     r10_5(chk)
+    # R10.4: what a view exports is the segment it displays -- the coordinate-space typing of the view classes'
+    # to_rich_dict / value (decided under C01 as R01.4) is a necessary condition of the round trip of any sliced object
+    from . import c01
+
+    c01.r01_4(chk)
     chk.assume("util/deserialise.py is imported (and registers its keys) before any other registering module, because each of them imports register_deserialiser from it")
     chk.assume("classes listed in NOT_SERIALISABLE are outside the serialisable API (each with its reason)")
